@@ -36,6 +36,7 @@ def plan(tier, seed):
     r = 4 if tier == 'quick' else 10
     for i in range(r):
         shards.append({'name': 'random-%d' % i, 'fn': 'shard_random', 'args': {'part': i, 'parts': r}})
+    shards.append({'name': 'digest-collisions', 'fn': 'shard_collisions', 'args': {}})
     for i in range(2 if tier == 'quick' else 6):
         shards.append({'name': 'task-%d' % i, 'fn': 'shard_task', 'args': {'part': i}})
     return shards
@@ -173,7 +174,7 @@ def shard_compositions(sh, part, parts):
             n = min(n, 9)
         rows = make_sequence(rng, n, 3)
         args = pipe.make_args(task='identify_rare_values', heuristic='Constant', rare_value_count_upper_bound=rng.choice([0, 1, 2, 5]),
-                              missing_value_symbols=rng.choice([',{}', ',{},NA', 'NA', '{}', ',{},', 'NA,{},NA']), max_unique_hist_constraint=rng.choice([2, 3, 30000, 30000]))
+                              missing_value_symbols=rng.choice([',{}', ',{},NA', 'NA', '{}', ',{},', 'NA,{},NA', '']), max_unique_hist_constraint=rng.choice([2, 3, 30000, 30000]))
         ref = None
         for sizes in compositions(n):
             cr = pipe.fresh_core_ranking()
@@ -314,3 +315,35 @@ def shard_task(sh, part):
     vals = list(cards.items())
     for (b1, v1), (b2, v2) in zip(vals, vals[1:]):
         sh.check('files-split-independent', v1 == v2, 'annotated-cardinality-depends-on-minibatch-size', lambda: {'B_a': b1, 'B_b': b2, 'a': v1, 'b': v2})
+
+
+def shard_collisions(sh):
+    """Two distinct values whose 32-bit digests (the project's seeded hash) coincide: one becomes frequent and is retired in an early
+    batch, the other occurs once later. Identity in the rare-value report and in the repetition histogram is identity of values."""
+    pairs = gen.xxh32_colliding_pairs(20141025, want=3)
+    if not pairs:
+        sh.inconclusive_note('no colliding pair found')
+        return
+    cols = ['id', 'label']
+    for (a, b) in pairs:
+        for bound in (1, 2):
+            rows = [[a, '1']] * (bound + 2) + [['x', '0'], ['y', '1']] + [[b, '0']] + [['x', '1']]
+            args = pipe.make_args(task='identify_rare_values', heuristic='Constant', rare_value_count_upper_bound=bound, missing_value_symbols=',{}')
+            ref = None
+            for sizes in ([len(rows)], [bound + 2, len(rows) - bound - 2], [bound + 1, 1, 2, len(rows) - bound - 4], [1] * len(rows)):
+                cr = pipe.fresh_core_ranking()
+                try:
+                    obs = run_history(sh, cr, rows, cols, sizes, args, 'direct')
+                except Exception as e:  # noqa: BLE001
+                    sh.fail('rare-table-exact', 'history:exception:' + type(e).__name__, {'exception': repr(e)[:300]})
+                    continue
+                cov, card, hist, rare = obs
+                _, ehist, erare = exact_stats(rows, cols, {'', '{}'}, bound, 30000)
+                sh.check('rare-table-exact', rare == erare, 'rare-value-table!=pairs-with-total<=bound', lambda: {'colliding_values': [a, b], 'batch_sizes': sizes, 'got': {str(k): v for k, v in rare.items()}, 'expected': {str(k): v for k, v in erare.items()}})
+                sh.check('repetition-histogram', hist == ehist, 'repetition-counts!=exact-recount', lambda: {'colliding_values': [a, b], 'got': hist, 'expected': ehist})
+                key = (hist, rare)
+                if ref is None:
+                    ref = key
+                else:
+                    sh.check('split-independence', key == ref, 'statistics-depend-on-batch-split', lambda: {'colliding_values': [a, b], 'batch_sizes': sizes})
+                sh.case(('collision', a, b, bound, tuple(sizes)), len(sizes) > 1, 'digest-collision', sample={'values_with_equal_32bit_digest': [a, b], 'batch_sizes': sizes, 'rare_table': {str(k): v for k, v in rare.items()}} if len(sizes) == 2 and bound == 1 else None)
